@@ -97,3 +97,43 @@ theorem read_write (lo up pinf ninf : Rat) (isInt : Bool) (hle : lo ≤ up) (hn 
           · simp [hl0, hln, hu, readCol, apply, setLower, setUpper, fillIn]
 
 end Qsx.MpsBounds
+
+namespace Qsx.MpsRanges
+open Qsx
+
+/-- a ranged row with a non-negative range (zero included) comes back as the same ranged row; every
+other row comes back unchanged -/
+theorem read_write (sense : Char) (rhs range : Rat) (hr : 0 ≤ range) (hs : sense = 'R' ∨ range = 0) :
+    readRow (writeRow sense rhs range).1 (writeRow sense rhs range).2.1 (writeRow sense rhs range).2.2 = (sense, rhs, range) := by
+  unfold writeRow
+  by_cases h : sense = 'R'
+  · subst h
+    have : ¬ range < 0 := not_lt.mpr hr
+    simp [readRow, this]
+  · rcases hs with hs | hs
+    · exact absurd hs h
+    · subst hs; simp [h, readRow]
+
+/-- the standard meaning of a RANGES record: the stored row `rhs' ≤ v ≤ rhs' + range'` is the
+documented interval for each of the three senses -/
+theorem read_meaning (sense : Char) (rhs r v : Rat) (hs : sense = 'G' ∨ sense = 'L' ∨ sense = 'E') :
+    let row := readRow sense rhs (some r)
+    row.1 = 'R' ∧
+    ((row.2.1 ≤ v ∧ v ≤ row.2.1 + row.2.2) ↔
+      (if sense = 'G' then rhs ≤ v ∧ v ≤ rhs + |r|
+       else if sense = 'L' then rhs - |r| ≤ v ∧ v ≤ rhs
+       else if 0 ≤ r then rhs ≤ v ∧ v ≤ rhs + r else rhs + r ≤ v ∧ v ≤ rhs)) := by
+  rcases hs with h | h | h <;> subst h
+  · by_cases hr : r < 0
+    · simp [readRow, hr, abs_of_neg hr]
+    · simp [readRow, hr, abs_of_nonneg (not_lt.mp hr)]
+  · by_cases hr : r < 0
+    · simp [readRow, hr, abs_of_neg hr]
+    · simp [readRow, hr, abs_of_nonneg (not_lt.mp hr)]
+  · by_cases hr : r < 0
+    · have : ¬ 0 ≤ r := not_le.mpr hr
+      simp [readRow, hr, this]
+    · have : 0 ≤ r := not_lt.mp hr
+      simp [readRow, hr, this]
+
+end Qsx.MpsRanges
